@@ -1,6 +1,6 @@
 // Kani harnesses compiled inside humphrey::app (see DESIGN.md 2.2). Included only under cfg(kani).
 
-mod c05 {
+pub mod c05 {
     use crate::krauss::wildcard_match;
 
     /// Executable transcription of the spec function `glob` of contracts/c05_krauss.vrs.
@@ -39,7 +39,7 @@ mod c05 {
         ($name:ident, $w:expr, $t:expr) => {
             #[kani::proof]
             #[kani::unwind(12)]
-            fn $name() {
+            pub fn $name() {
                 witness::<$w, $t>();
             }
         };
